@@ -26,7 +26,7 @@ import (
 )
 
 // annotation-only wrapper kinds (leave Error() and the root cause unchanged)
-var annotOnly = map[string]bool{"withstack": true, "wrapempty": true, "hint": true, "detail": true, "safedetails": true, "telemetry": true,
+var annotOnly = map[string]bool{"withstack": true, "wrapempty": true, "hint": true, "detail": true, "safedetails": true, "safedetails0": true, "telemetry": true,
 	"domain": true, "domainnone": true, "domainraw": true, "withstackdeep": true, "issuelink": true, "tags": true, "tagsafe": true, "hintf": true, "detailf": true, "issuelinkd": true, "issuelinku": true, "telemetry0": true, "combine": true, "assertion": true, "mark": true, "markempty": true, "secondary": true, "http": true, "grpc": true}
 
 func init() {
